@@ -316,6 +316,8 @@ func ruleGobProxySymmetry(c *Ctx) {
 		}
 		c.saw(c.funcName(efd))
 		c.saw(c.funcName(dfd))
+		c.gobLoopsKeepEveryElement(rule, tname, efd)
+		c.gobLoopsKeepEveryElement(rule, tname, dfd)
 		et, earg := c.gobCodecValue(efd, "GobEncode")
 		dt, darg := c.gobCodecValue(dfd, "GobDecode")
 		// read off the effect normal form of the two codecs when both are in the supported fragment
@@ -939,4 +941,109 @@ func ruleRefOpaque(c *Ctx) {
 		})
 	}
 	c.ob(rule, "ref-literals-wrap-parsed", token.NoPos, len(bad) == 0 && count > 0, fmt.Sprintf("spec.Ref literals in %v do not wrap the result of jsonreference.New/MustCreateRef/Inherits", bad))
+}
+
+// gobLoopsKeepEveryElement: a gob codec that rebuilds a list element by element (for _, e := range xs { ...;
+// ys = append(ys, v) }) appends once on every way through the loop body, so the rebuilt list has the length of the
+// original: an append under a condition (only for elements that hold something) drops the empty elements, and the
+// padding codec exists precisely to carry those.
+func (c *Ctx) gobLoopsKeepEveryElement(rule, tname string, fd *ast.FuncDecl) {
+	if fd.Body == nil {
+		return
+	}
+	nth := 0
+	var visit func(n ast.Node) bool
+	visit = func(n ast.Node) bool {
+		rs, ok := n.(*ast.RangeStmt)
+		if !ok {
+			return true
+		}
+		t := c.typeOf(rs.X)
+		if t == nil {
+			return true
+		}
+		if _, isSlice := t.Underlying().(*types.Slice); !isSlice {
+			return true
+		}
+		// the list being rebuilt: target of `ys = append(ys, one)` anywhere below the body, declared outside the loop
+		var target string
+		ast.Inspect(rs.Body, func(m ast.Node) bool {
+			if _, isLit := m.(*ast.FuncLit); isLit {
+				return false
+			}
+			if y, ok := c.singleAppend(m); ok && target == "" {
+				// the list lives outside the loop (a list built per element inside the body is another matter)
+				as := m.(*ast.AssignStmt)
+				if p, isPath := c.apath(as.Lhs[0]); isPath && p.Root != nil && !(p.Root.Pos() >= rs.Pos() && p.Root.Pos() < rs.End()) {
+					target = y
+				}
+			}
+			return true
+		})
+		if target == "" {
+			return false
+		}
+		nth++
+		var covers func(list []ast.Stmt) (bool, bool) // (appended on every way through, a way leaves the body early)
+		covers = func(list []ast.Stmt) (bool, bool) {
+			for _, st := range list {
+				switch x := st.(type) {
+				case *ast.BranchStmt:
+					return false, true
+				case *ast.ReturnStmt:
+					return true, false // the codec gives up altogether
+				case *ast.BlockStmt:
+					if ok, early := covers(x.List); ok || early {
+						return ok, early
+					}
+				case *ast.IfStmt:
+					okThen, earlyThen := covers(x.Body.List)
+					okElse, earlyElse := false, false
+					switch e := x.Else.(type) {
+					case *ast.BlockStmt:
+						okElse, earlyElse = covers(e.List)
+					case *ast.IfStmt:
+						okElse, earlyElse = covers([]ast.Stmt{e})
+					}
+					if earlyThen || earlyElse {
+						return false, true
+					}
+					if okThen && okElse {
+						return true, false
+					}
+					if okThen != okElse {
+						// appended on one side only: the other side may still reach a later append, which would add a
+						// second element on the first side - either way not one element each
+						return false, true
+					}
+				default:
+					if y, ok := c.singleAppend(st); ok && y == target {
+						return true, false
+					}
+				}
+			}
+			return false, false
+		}
+		one, _ := covers(rs.Body.List)
+		c.ob(rule, fmt.Sprintf("%s.%s:loop#%d:one-element-each", tname, fd.Name.Name, nth), rs.Pos(), one,
+			fmt.Sprintf("the loop over %s rebuilds %s but does not append to it on every way through its body: elements are dropped (or doubled) in transport", exprString(rs.X), target))
+		return false
+	}
+	ast.Inspect(fd.Body, visit)
+}
+
+// singleAppend recognises `ys = append(ys, one)` and answers the printed form of ys.
+func (c *Ctx) singleAppend(n ast.Node) (string, bool) {
+	as, ok := n.(*ast.AssignStmt)
+	if !ok || len(as.Lhs) != 1 || len(as.Rhs) != 1 {
+		return "", false
+	}
+	call, ok := unparen(as.Rhs[0]).(*ast.CallExpr)
+	if !ok || !c.isBuiltin(call, "append") || len(call.Args) != 2 || call.Ellipsis.IsValid() {
+		return "", false
+	}
+	if exprString(call.Args[0]) != exprString(as.Lhs[0]) {
+		return "", false
+	}
+	return exprString(as.Lhs[0]), true
 }
